@@ -161,6 +161,15 @@ def run_pipeline_case(case):
     return acc
 
 
+UNTAGGED = [0]
+# what a read without a sample tag is called is the tool's business ('bulk' in one counter, 'No_Sample' in the other): one label here
+UNTAGGED_LABEL = '<no sample tag>'
+
+
+def canon_sample(x):
+    return UNTAGGED_LABEL if x in ('bulk', 'No_Sample', None) else x
+
+
 def run_case(case):
     if case.get('kind') == 'pipeline':
         return run_pipeline_case(case)
@@ -216,6 +225,7 @@ def run_case(case):
             if abs(pos - site) > mfs:
                 continue
             cell = r.choice(cells)
+            untagged = r.random() < 0.08      # a read without a sample tag is counted under the sample 'bulk'
             mapq = r.choice([0, 19, 20, 49, 50, 60]) if not forced else 60
             dup = r.random() < 0.25 and not forced
             qcf = r.random() < 0.1 and not forced
@@ -223,6 +233,10 @@ def run_case(case):
             da = r.choice([None, 'A', 'B'])
             kind = r.choice(['proper', 'proper', 'nonproper', 'single', 'r2only'])
             tags = {'SM': cell, 'DS': site, 'RC': 1 if dup else 0}
+            if untagged:
+                del tags['SM']
+                cell = UNTAGGED_LABEL
+                UNTAGGED[0] += 1
             if mp:
                 tags['mp'] = mp
             if da:
@@ -256,6 +270,8 @@ def run_case(case):
             sites_list.append(site)
             rid += 1
     acc.count('lib:non_proper_pairs', nonproper)
+    acc.count('lib:reads_without_sample_tag', UNTAGGED[0])
+    UNTAGGED[0] = 0
     acc.count('lib:sites_on_job_boundary', on_boundary)
     cfg = {'bin_size': bin_size, 'D': D, 'max_fragment_size': mfs, 'min_mq': min_mq, 'contigs': contigs, 'cells': len(cells), 'records': len(recs)}
     with Scratch('c12') as dd:
@@ -266,7 +282,7 @@ def run_case(case):
             for bin_id, sd in counts.items():
                 for sample, n in sd.items():
                     if n:
-                        out[tuple(bin_id) + (sample,)] += n
+                        out[tuple(bin_id) + (canon_sample(sample),)] += n
             return out
         first = {}
         for key_tags in (None, ['DA'], 'ignore_mp'):
@@ -324,7 +340,7 @@ def run_case(case):
             for idx, row in df.iterrows():
                 for sample, v in row.items():
                     if v is not None and not (isinstance(v, float) and math.isnan(v)) and v != 0:
-                        got[(idx[0], int(idx[1]), sample)] += int(v)
+                        got[(idx[0], int(idx[1]), canon_sample(sample))] += int(v)
             acc.count('oracle:matrix_cells_compared', len(set(got) | set(expect_gbc)))
             if got != expect_gbc:
                 miss = expect_gbc - got
